@@ -814,12 +814,14 @@ class Representation:
         if base_ring is None:
             base_ring = self.base_ring
 
-        if dtype is None:
-            dtype = self.dtype
+        # if no dtype is requested, let each image take its type from
+        # the generator it comes from (self.dtype is only the dtype of
+        # the generator which was assigned last)
+        hom_kwargs = {"base_ring": base_ring}
+        if dtype is not None:
+            hom_kwargs["dtype"] = dtype
 
-        gln_adjoint = lie.hom.gln_adjoint(
-            base_ring=base_ring, dtype=dtype
-        )
+        gln_adjoint = lie.hom.gln_adjoint(**hom_kwargs)
 
         return self._compose(gln_adjoint, base_ring=base_ring,
                              dtype=dtype, **kwargs)
@@ -828,12 +830,14 @@ class Representation:
         if base_ring is None:
             base_ring = self.base_ring
 
-        if dtype is None:
-            dtype = self.dtype
+        # if no dtype is requested, let each image take its type from
+        # the generator it comes from (self.dtype is only the dtype of
+        # the generator which was assigned last)
+        hom_kwargs = {"base_ring": base_ring}
+        if dtype is not None:
+            hom_kwargs["dtype"] = dtype
 
-        sln_adjoint = lie.hom.sln_adjoint(
-            base_ring=base_ring, dtype=dtype
-        )
+        sln_adjoint = lie.hom.sln_adjoint(**hom_kwargs)
 
         return self._compose(sln_adjoint, base_ring=base_ring,
                              dtype=dtype, **kwargs)
